@@ -9,6 +9,8 @@
    an x-root within 2e-7 of a y-root of the query point; it is exactly t when t is the only parameter with that
    abscissa.  The excluded cases are necessary (witnesses: apex of a parabola returns -1; a leading coefficient in the
    band 0<|a|<=1e-9|b| is dropped).
+   Float witness (C15_line_end_rounding_float_refuted, binary64 instance, vm_compute): far from the origin the point at
+   t = 1e-12 rounds to before the start and the lookup returns -1.1e-10, outside [0,1] -- known finding C15-line-end-rounding.
    NOT covered by a theorem: the cubic lookup (a coarse search over the sampling table; within 2% of the length) --
    hand model through the C16 sampler + search only; floating-point tolerances (1e-9 lines, 1e-6 quadratics). *)
 
@@ -60,6 +62,9 @@ Proof. exact quad_tOfPoint_apex_not_found. Qed.
 Theorem C15_quad_tOfPoint_near_linear_inexact :
   let q := Q3 (P 0 0) (P (1 / 2) (1 / 2)) (P (1 + 1 / 10000000000) 1) in Quad_tOfPoint ROps q (Quad_pointAtTime ROps q (1 / 2)) = 1 / 2 + 1 / 40000000000.
 Proof. exact quad_tOfPoint_near_linear_inexact. Qed.
+Theorem C15_line_end_rounding_float_refuted :
+  let l := line_end_rounding_witness in PrimFloat.ltb (Line_tOfPoint FOps l (Line_pointAtTime FOps l 0x1.19799812dea11p-40%float) false) 0%float = true.
+Proof. exact line_end_rounding_float_refuted. Qed.
 
 Print Assumptions C15_line_tOfPoint_inverse.
 Print Assumptions C15_line_tOfPoint_degenerate.
@@ -75,3 +80,4 @@ Print Assumptions C15_line_off_carrier_example.
 Print Assumptions C15_quad_inverse_example.
 Print Assumptions C15_quad_tOfPoint_apex_not_found.
 Print Assumptions C15_quad_tOfPoint_near_linear_inexact.
+Print Assumptions C15_line_end_rounding_float_refuted.
